@@ -19,6 +19,7 @@ import (
 	"fmt"
 	"io"
 	"log"
+	"math"
 	"strconv"
 	"strings"
 )
@@ -237,7 +238,10 @@ func (d *Dispenser) ScalarVal() any {
 	if num, err := strconv.Atoi(text); err == nil {
 		return num
 	}
-	if num, err := strconv.ParseFloat(text, 64); err == nil {
+	// strconv.ParseFloat also reads Inf, +Inf, -Inf, Infinity and NaN: those are not numbers a
+	// config can carry (json.Marshal refuses them and the whole module would be dropped from the
+	// adapted config), so such a token stays the string it is
+	if num, err := strconv.ParseFloat(text, 64); err == nil && !math.IsInf(num, 0) && !math.IsNaN(num) {
 		return num
 	}
 	if bool, err := strconv.ParseBool(text); err == nil {
